@@ -83,6 +83,9 @@ fn cost_diff(a: Cost, b: Cost) -> Cost {
 pub fn calib() -> &'static Calib {
     static C: OnceLock<Calib> = OnceLock::new();
     C.get_or_init(|| {
+        // honest prover for the calibration, whatever the caller has installed
+        decaf377::verif::set_isqrt_hook(None);
+        decaf377::verif::set_encoding_hook(None);
         let cs = ConstraintSystem::<Fq>::new_ref();
         let s = Element::GENERATOR.vartime_compress_to_field();
         let v = <ElementVar as AllocVar<Fq, Fq>>::new_witness(cs.clone(), || Ok(s)).unwrap();
@@ -150,6 +153,7 @@ enum Rel {
     Witness { offered: (BigUint, BigUint), offered_valid: bool, out: Id, enc_site: usize, site_from: usize },
     Sign { inp: Id, out: Id, what: &'static str },
     Abs { inp: Id, out: Id },
+    IsEq { a: Id, b: Id, out: Id },
 }
 
 /// What the first execution recorded for each op: which variables it used and produced.
@@ -423,6 +427,7 @@ pub fn run(
     order: Option<&[usize]>,
     replay_of: Option<&[Resolved]>,
 ) -> ExecResult {
+    let _ = calib(); // before any prover is installed
     let cs = ConstraintSystem::<Fq>::new_ref();
     let mut w = World {
         cs: cs.clone(),
@@ -706,6 +711,7 @@ pub fn op_name(op: &R1Op) -> &'static str {
         R1Op::AllocElem { .. } => "alloc_element",
         R1Op::AllocAffine { .. } => "alloc_affine",
         R1Op::WitnessOffer { .. } => "new_witness",
+        R1Op::AllocUnchecked { .. } => "new_variable_omit_prime_order_check",
         R1Op::ZeroVar => "zero",
         R1Op::ConstantVar { .. } => "constant",
         R1Op::AllocFqVar { .. } => "alloc_fqvar",
